@@ -717,6 +717,11 @@ func (vfs *MemFS) RemoveAll(path string) error {
 		return &fs.PathError{Op: op, Path: path, Err: err}
 	}
 
+	if child == node(parent) {
+		// the root directory can't be removed.
+		return &fs.PathError{Op: op, Path: path, Err: vfs.err.InvalidArgument}
+	}
+
 	parent.mu.Lock()
 	defer parent.mu.Unlock()
 
